@@ -48,6 +48,9 @@ type Spec struct {
 	// (the SAME objects) and is Check()ed - its result is ignored. Results on the real root must
 	// not depend on that (the type objects are shared the way an API definition shares them).
 	PreRoot bool `json:"other_root_checked_first,omitempty"`
+	// NestedReg: every type is added to every type (as FullReg), but the ROOT receives only the
+	// types its own text names; the types those need reach the root through them.
+	NestedReg bool `json:"types_reach_the_root_through_types,omitempty"`
 }
 
 // Obs is what one call returned.
@@ -118,32 +121,33 @@ func Observe(err error) Obs {
 	return o
 }
 
-// kitDisagreement: kit.ConvertError (the SDK's view of an error) must keep the code and the
-// position the error itself exposes. "" when it does (or when the error exposes neither).
+// kitDisagreement: kit.ConvertError (the SDK's view of an error) must keep the code, the
+// position and the file the error exposes - also when the library error is wrapped (AddType:
+// "load added type: %w"). "" when it does (or when the error exposes none of them).
 func kitDisagreement(err error, o Obs) (d string) {
 	defer func() {
 		if r := recover(); r != nil {
 			d = fmt.Sprintf("kit.ConvertError panicked: %v", r)
 		}
 	}()
-	// only errors that are library errors THEMSELVES are judged: an error that merely wraps one
-	// (AddType: "load added type: %w") is converted as a generic error, which no statement forbids
-	direct, isDirect := err.(interface {
-		ErrCode() int
-		Position() uint
-	})
 	k := kit.ConvertError(fs.NewFile("kit", ""), err)
 	if k == nil {
 		return "kit.ConvertError returned nil for a non-nil error"
 	}
-	if !isDirect {
-		return ""
+	if o.Code >= 0 && k.ErrCode() != o.Code {
+		return fmt.Sprintf("kit.ConvertError reports code %d, the error itself %d", k.ErrCode(), o.Code)
 	}
-	if k.ErrCode() != direct.ErrCode() {
-		return fmt.Sprintf("kit.ConvertError reports code %d, the error itself %d", k.ErrCode(), direct.ErrCode())
+	if o.Pos >= 0 && int(k.Position()) != o.Pos {
+		return fmt.Sprintf("kit.ConvertError reports position %d, the error itself %d", k.Position(), o.Pos)
 	}
-	if k.Position() != direct.Position() {
-		return fmt.Sprintf("kit.ConvertError reports position %d, the error itself %d", k.Position(), direct.Position())
+	// a position means something only together with the file it refers to
+	var f interface{ Filename() string }
+	if stderrors.As(err, &f) && o.Pos >= 0 && k.Filename() != f.Filename() {
+		return fmt.Sprintf("kit.ConvertError names file %q, the error itself %q (position %d)", k.Filename(), f.Filename(), k.Position())
+	}
+	var u interface{ IncorrectUserType() string }
+	if stderrors.As(err, &u) && k.IncorrectUserType() != u.IncorrectUserType() {
+		return fmt.Sprintf("kit.ConvertError reports incorrect user type %q, the error itself %q", k.IncorrectUserType(), u.IncorrectUserType())
 	}
 	return ""
 }
@@ -224,7 +228,7 @@ func Build(sp Spec) (s *njs.Schema, o Obs) {
 		}
 		built[i] = ts
 	}
-	if sp.FullReg {
+	if sp.FullReg || sp.NestedReg {
 		for i, t := range sp.Types {
 			if t.Regex {
 				continue
@@ -252,6 +256,9 @@ func Build(sp Spec) (s *njs.Schema, o Obs) {
 		Safe(pre.Check)
 	}
 	for i, t := range sp.Types {
+		if sp.NestedReg && !strings.Contains(sp.Text, t.Name) {
+			continue
+		}
 		if err := s.AddType(t.Name, built[i]); err != nil {
 			return s, Observe(err)
 		}
